@@ -385,7 +385,7 @@ def execute(sc, sim):
     viols = []
     sess = sc["sessions"]
     files = render_files(sess)
-    dirs = sorted(set(s["base"] for s in sess))
+    dirs = sorted(set([s["base"] for s in sess] + [d for s in sess for d in s.get("dirs", [])]))
     faults = [dict(f) for f in sc.get("faults", [])]
     base = {"io_seed": sc["io_seed"], "short_reads": sc["short_reads"],
             "listdir_seed": sc["listdir_seed"], "dirs": dirs}
